@@ -309,10 +309,19 @@ int main(int argc, char **argv)
 
 				/* the router with AS hops[i].asn holds segments i+1..n signed, prepends its own segment, signs for tgt */
 				b = mk_bgpsec(n, tgt, afi, nlri_len, nlri, 0);
-				for (int j = i; j <= n; j++) {
-					rtr_bgpsec_append_sec_path_seg(b, rtr_bgpsec_new_secure_path_seg(hops[j].pcount, hops[j].flags, hops[j].asn));
-					if (j > i)
-						rtr_bgpsec_append_sig_seg(b, rtr_bgpsec_new_signature_seg(hops[j].ski, hops[j].sig_len, hops[j].sig));
+				if (bit0 % 2) {
+					for (int j = i; j <= n; j++) {
+						rtr_bgpsec_append_sec_path_seg(b, rtr_bgpsec_new_secure_path_seg(hops[j].pcount, hops[j].flags, hops[j].asn));
+						if (j > i)
+							rtr_bgpsec_append_sig_seg(b, rtr_bgpsec_new_signature_seg(hops[j].ski, hops[j].sig_len, hops[j].sig));
+					}
+				} else {
+					/* as a router does it: the received segments oldest first, each put in front of the older ones, its own last */
+					for (int j = n; j >= i; j--) {
+						rtr_bgpsec_prepend_sec_path_seg(b, rtr_bgpsec_new_secure_path_seg(hops[j].pcount, hops[j].flags, hops[j].asn));
+						if (j > i)
+							rtr_bgpsec_prepend_sig_seg(b, rtr_bgpsec_new_signature_seg(hops[j].ski, hops[j].sig_len, hops[j].sig));
+					}
 				}
 				bool inject = i == errhop || (errhop > n && i == n);
 				uint8_t badkey[200];
